@@ -11,7 +11,7 @@ theorem lawful_guardLen {c : Codec α} (h : Lawful c) (n : Nat) (e : Err)
   parse_ser t rest hv := by
     simp only [Codec.guardLen] at hv ⊢
     have := hn t hv
-    have hl : ¬ (c.ser t ++ rest).length < n := by simp; omega
+    have hl : ¬ ((c.ser t ++ rest).take n).length < n := by simp; omega
     simp only [hl, if_false]
     exact h.parse_ser t rest hv
   ser_parse b t rest hp := by
